@@ -57,6 +57,53 @@ fn read_all(bytes: &[u8]) -> Result<Option<(Vec<Value>, bool)>, ()> {
     })
 }
 
+/// the typed iterator (`Reader::into_deser_iter`) on the same bytes: (items delivered, errors reported, items after
+/// the first error); bounded, in case the iterator never ends
+fn read_all_typed(bytes: &[u8]) -> Result<Option<(usize, usize, usize)>, ()> {
+    catch(|| match Reader::new(bytes) {
+        Err(_) => None,
+        Ok(rd) => {
+            let (mut ok, mut errs, mut after) = (0usize, 0usize, 0usize);
+            for item in rd.into_deser_iter::<crate::anyshape::AnyShape>().take(100_000) {
+                match item {
+                    Ok(_) => {
+                        ok += 1;
+                        if errs > 0 {
+                            after += 1;
+                        }
+                    }
+                    Err(_) => {
+                        if errs > 0 {
+                            after += 1;
+                        }
+                        errs += 1;
+                    }
+                }
+            }
+            Some((ok, errs, after))
+        }
+    })
+}
+
+/// the typed iterator must tell the same story as the value iterator: the same number of values, an error exactly
+/// when that one reports one, and nothing after the first error
+fn compare_typed(out: &mut Out, bytes: &[u8], res: &Result<Option<(Vec<Value>, bool)>, ()>, case: &str) {
+    let typed = read_all_typed(bytes);
+    match (res, &typed) {
+        (_, Err(())) => out.oracle_fail("panic", "the typed reader panicked", case),
+        (Ok(None), Ok(None)) => {}
+        (Ok(Some((vals, err))), Ok(Some((ok, errs, after)))) => {
+            if *after > 0 || *errs > 1 {
+                out.oracle_fail("typed-reader-continues-after-error", &format!("into_deser_iter yields {after} more items after its first error ({errs} errors in all)"), case);
+            } else if *ok != vals.len() || (*errs > 0) != *err {
+                out.oracle_fail("typed-reader-differs", &format!("into_deser_iter delivers {ok} values and {errs} errors, the value iterator {} values and error={err}", vals.len()), case);
+            }
+        }
+        (Ok(a), Ok(b)) => out.oracle_fail("typed-reader-differs", &format!("opening: value reader {}, typed reader {}", a.is_some(), b.is_some()), case),
+        (Err(()), _) => {}
+    }
+}
+
 pub fn run(args: &[String]) -> i32 {
     let dir = &args[0];
     let seed: u64 = args[1].parse().unwrap();
@@ -140,6 +187,9 @@ pub fn run(args: &[String]) -> i32 {
                 let case = format!("schema={short_text} codec={cname} blocks={sizes:?} file_len={} header_len={} cut={cut}", b.file.len(), b.header_len);
                 crate::util::begin_case(&case);
                 let res = read_all(bytes);
+                if cut % 3 == 0 {
+                    compare_typed(&mut out, bytes, &res, &case);
+                }
                 crate::util::end_case();
                 out.count("cuts");
                 let (want, boundary) = expect_prefix(cut);
@@ -197,6 +247,7 @@ pub fn run(args: &[String]) -> i32 {
                     let case = format!("schema={short_text} codec={cname} blocks={sizes:?} altered offset={off} xor={fl:#x} ({})",
                         if which == usize::MAX - 1 { "magic".to_string() } else if which == usize::MAX { "header marker".to_string() } else { format!("marker of block {which}") });
                     let res = read_all(&m);
+                    compare_typed(&mut out, &m, &res, &case);
                     out.count("alterations");
                     let imp_line = match &res {
                         Err(()) => {
